@@ -189,6 +189,17 @@ def canon_atom(a: ast.AST):
         a = inline(a, _SCOPE["scope"])
     a = canon(a)
     a = resolved(a, {})  # alpha-renames comprehension variables
+
+    class _SortEq(ast.NodeTransformer):
+        """== / != inside the atom (`(L == L.T).all()`): one operand order"""
+        def visit_Compare(self, node):
+            self.generic_visit(node)
+            if len(node.ops) == 1 and isinstance(node.ops[0], (ast.Eq, ast.NotEq)) and not isinstance(node.comparators[0], ast.Constant) \
+                    and norm(node.comparators[0]) < norm(node.left):
+                return ast.Compare(left=node.comparators[0], ops=node.ops, comparators=[node.left])
+            return node
+    if not isinstance(a, ast.Compare):
+        a = _SortEq().visit(a)
     pol = True
     while isinstance(a, ast.UnaryOp) and isinstance(a.op, ast.Not):
         a, pol = a.operand, not pol
